@@ -364,7 +364,10 @@ func explore(bin, scratch string, sp *spec, prop, tier, mode string, seed uint64
 	}
 	timeout := sp.ChunkTimeout
 	if timeout == 0 {
-		timeout = 15 * time.Minute
+		timeout = 20 * time.Minute
+	}
+	if tier == "thorough" {
+		timeout *= 6 // heavier scenarios, and thorough runs usually share the machine
 	}
 	var mu sync.Mutex
 	next := 0
